@@ -1163,6 +1163,22 @@ func c11DerivesFrom(v ssa.Value, set map[ssa.Value]bool) bool {
 						return true
 					}
 				}
+			case *ssa.UnOp:
+				// load of a variable captured by reference: the values stored into it by the parent
+				if fv, ok := u.X.(*ssa.FreeVar); ok && u.Op == token.MUL {
+					for _, b := range freeVarBindings(fv) {
+						if set[b] {
+							return true
+						}
+						if a, ok := b.(*ssa.Alloc); ok {
+							for _, st := range storesTo(a) {
+								if rec(st.Val, d+1) {
+									return true
+								}
+							}
+						}
+					}
+				}
 			case *ssa.Extract:
 				if rec(u.Tuple, d+1) {
 					return true
